@@ -553,3 +553,34 @@ func runC09N6(c *Ctx) {
 	}
 	r.Min("C09-N6", n, 4, "index clamps in package rockredis")
 }
+
+func init() {
+	old := registry["C09"].Run
+	registry["C09"].Run = func(c *Ctx) { old(c); c09BatchKeys(c) }
+}
+
+// The read-your-own-batch rule (N1) is about one command. Across the commands of one apply batch the same guarantee
+// rests on the batch operator: a second command on a key already written in the open batch must cut the batch, which
+// needs every command of an open batch to have its key registered (the C07-T2 obligations on AddBatchKey / IsBatchable,
+// reported here as well: a missed registration makes two HMSETs of one batch both compute the size from committed data).
+func c09BatchKeys(c *Ctx) {
+	r := c.R
+	sub := an.NewReport("C09")
+	c07T2(&Ctx{P: c.P, W: c.W, R: sub, Tier: c.Tier})
+	n := 0
+	for _, ob := range sub.Obligations {
+		if ob.Rule != "C07-T2" || !(strings.Contains(ob.Construct, "AddBatchKey") || strings.Contains(ob.Construct, "duplicate") || strings.Contains(ob.Construct, "IsBatchable")) {
+			continue
+		}
+		n++
+		switch ob.Status {
+		case "ok":
+			r.Ok("C09-N1", ob.Construct, ob.Pos, ob.Detail)
+		case "VIOLATION":
+			r.Bad("C09-N1", ob.Construct, ob.Pos, ob.Detail)
+		default:
+			r.Unknown("C09-N1", ob.Construct, ob.Pos, ob.Detail)
+		}
+	}
+	r.Min("C09-N1", n, 3, "batch key registration obligations (from C07-T2)")
+}
